@@ -387,11 +387,24 @@ fn replicated(v: &Verdicts, runs: usize, seed0: u64) -> (u64, u64) {
                         lines.push((s, l));
                     }
                 }
+                // next to the shared key every session writes a key of its own (round 11): no other session touches it, so
+                // whatever the order of the replicated messages, every replica ends with exactly the primary's value for it
+                if !cross {
+                    for s in ["a", "b"] {
+                        for j in 0..r.range(1, 2) {
+                            let at = r.below(lines.len() + 1);
+                            lines.insert(at, (s, if r.chance(1, 2) { format!("set own{} {}own{}", s, s, j) } else { format!("set-safe own{} {} {}own{}", s, r.below(3), s, j) }));
+                        }
+                    }
+                }
                 if concurrent {
+                    // lock-level interleavings inside the node, the gap between taking an operation id and queueing the message included
+                    c.sim.fine.store(2, std::sync::atomic::Ordering::SeqCst);
                     for (s, l) in &lines {
                         c.send(s, l);
                     }
                     let _ = c.run_until_quiet();
+                    c.sim.fine.store(0, std::sync::atomic::Ordering::SeqCst);
                 } else {
                     for (s, l) in &lines {
                         c.send(s, l);
@@ -418,6 +431,17 @@ fn replicated(v: &Verdicts, runs: usize, seed0: u64) -> (u64, u64) {
                     }
                     c.shutdown();
                     continue;
+                }
+                let own_of = |i: usize, key: &str| sets[i].iter().find(|(k, _)| k.starts_with("nw ")).and_then(|(_, m)| m.get(key).map(|x| x.0.clone()));
+                'own: for key in ["owna", "ownb"] {
+                    for i in 1..n {
+                        if own_of(i, key) != own_of(0, key) {
+                            v.report(json!({"check": "newer", "mode": "replicated", "writers": if concurrent {"two-concurrent-sessions-on-the-primary"} else {"sequential"}, "problem": "replica-differs-on-a-key-only-one-session-writes"}),
+                                json!({"nodes": n, "writes": lines, "key": key, "primary": own_of(0, key), "replica": own_of(i, key), "replica_index": i,
+                                       "links_tail": c.link_log().iter().rev().take(30).rev().map(|l| format!("[{}] n{}->n{} {}", l.0, l.1, l.2, l.3)).collect::<Vec<_>>()}));
+                            break 'own;
+                        }
+                    }
                 }
                 for i in 1..n {
                     let ok = sets[i].iter().find(|(k, _)| k.starts_with("nw ")).and_then(|(_, m)| m.get("k").cloned());
